@@ -403,3 +403,5 @@ def run(ctx):
     # shared with C18.b: the validating setters refuse before they store (a refused negative scaling leaves nothing behind)
     ctx.borrow("C18", ("HistogramBase.frequencies.setter", "HistogramBase.errors2.setter"), "C06.d", floor=4)
     ctx.borrow("C05", ("HistogramCollection.sum",), "C06.a", floor=2)
+    # a scaling site must not change contents before something it still reads / may refuse (shared with C18.a)
+    ctx.borrow("C18", ("HistogramCollection:HistogramCollection.normalize_bins", "Histogram1D:HistogramBase.__imul__", "Histogram1D:HistogramBase.__itruediv__"), "C06.a", floor=0)
